@@ -178,7 +178,7 @@ Proof. vm_compute. split; reflexivity. Qed.
 (* ------------------------------------------------------------------------------------------------------
    Added in build session 4 (statements re-stated from the proof files by harness tooling; each is closed by
    exact). *)
-From SplipyModel Require Import Proofs.ObjEval Proofs.SeamContinuity Proofs.PeriodicInsert.
+From SplipyModel Require Import Proofs.ObjEval Proofs.SeamContinuity Proofs.PeriodicInsert Proofs.PeriodicEndToEnd.
 Open Scope R_scope.
 Theorem C04_periodic_boehm :
   forall K : nat -> R,
@@ -294,4 +294,89 @@ Theorem C04_periodic_hypotheses_satisfiable :
   per_canon ex_knots 4 3 8 8.
 Proof. exact @ex_canon. Qed.
 Print Assumptions C04_periodic_hypotheses_satisfiable.
+
+Theorem C04_insert_knot_periodic_then_evaluate :
+  forall (tol : R) (o : obj R) (d n : nat) (T x : R),
+         0 < tol ->
+         wf_obj_R tol o ->
+         (d < length (o_bases o))%nat ->
+         canon_dir o d n T ->
+         let bd := nth d (o_bases o) dflt_basis in
+         b_start bd <= x < b_end bd ->
+         exists o' : obj R,
+           obj_insert_knots o d [x] = Ok o' /\
+           wf_obj_R tol o' /\
+           canon_dir o' d (n + 1) T /\
+           length (o_bases o') = length (o_bases o) /\
+           (forall i : nat, i <> d -> nth i (o_bases o') dflt_basis = nth i (o_bases o) dflt_basis) /\
+           (let bd' := nth d (o_bases o') dflt_basis in
+            b_order bd' = b_order bd /\
+            b_per1 bd' = b_per1 bd /\
+            b_start bd' = b_start bd /\
+            b_end bd' = b_end bd /\
+            (forall v : R, b_start bd <= v <= b_end bd -> In v (b_knots bd') <-> In v (b_knots bd) \/ v = x) /\
+            (forall ts : list R,
+             (forall i : nat, (i < length (o_bases o))%nat -> in_dom tol (nth i (o_bases o) dflt_basis) (nth i ts 0)) ->
+             snap1 (b_knots bd') tol (nth d ts 0) = snap1 (b_knots bd) tol (nth d ts 0) ->
+             obj_eval tol o' ts = obj_eval tol o ts) /\
+            (forall t : R,
+             b_start bd <= t <= b_end bd ->
+             param_ok_snap tol (b_knots bd) x t -> snap1 (b_knots bd') tol t = snap1 (b_knots bd) tol t) /\
+            (forall ts : list R,
+             (forall i : nat, (i < length (o_bases o))%nat -> in_dom tol (nth i (o_bases o) dflt_basis) (nth i ts 0)) ->
+             b_start bd <= nth d ts 0 <= b_end bd ->
+             param_ok_snap tol (b_knots bd) x (nth d ts 0) -> obj_eval tol o' ts = obj_eval tol o ts) /\
+            (forall ts : list R,
+             (forall i : nat, (i < length (o_bases o))%nat -> in_dom tol (nth i (o_bases o) dflt_basis) (nth i ts 0)) ->
+             (forall v : R, In v (b_knots bd) \/ In v (b_knots bd') -> tol <= Rabs (v - nth d ts 0)) ->
+             obj_eval tol o' ts = obj_eval tol o ts)).
+Proof. exact @insert_knot_periodic_eval. Qed.
+Print Assumptions C04_insert_knot_periodic_then_evaluate.
+
+Theorem C04_insert_knots_periodic_then_evaluate :
+  forall (tol : R) (d : nat) (ts : list R),
+         0 < tol ->
+         forall (xs : list R) (o : obj R) (n : nat) (T : R),
+         wf_obj_R tol o ->
+         (d < length (o_bases o))%nat ->
+         canon_dir o d n T ->
+         let bd := nth d (o_bases o) dflt_basis in
+         (forall x : R, In x xs -> b_start bd <= x < b_end bd /\ param_ok_snap tol (b_knots bd) x (nth d ts 0)) ->
+         (forall i : nat, (i < length (o_bases o))%nat -> in_dom tol (nth i (o_bases o) dflt_basis) (nth i ts 0)) ->
+         b_start bd <= nth d ts 0 <= b_end bd ->
+         exists o' : obj R,
+           obj_insert_knots o d xs = Ok o' /\
+           wf_obj_R tol o' /\
+           canon_dir o' d (n + length xs) T /\
+           obj_eval tol o' ts = obj_eval tol o ts /\
+           length (o_bases o') = length (o_bases o) /\
+           (forall i : nat, i <> d -> nth i (o_bases o') dflt_basis = nth i (o_bases o) dflt_basis) /\
+           (let bd' := nth d (o_bases o') dflt_basis in
+            b_order bd' = b_order bd /\ b_per1 bd' = b_per1 bd /\ b_start bd' = b_start bd /\ b_end bd' = b_end bd).
+Proof. exact @insert_knots_periodic_eval. Qed.
+Print Assumptions C04_insert_knots_periodic_then_evaluate.
+
+Theorem C04_periodic_change_of_basis_then_evaluate :
+  forall (tol : R) (o : obj R) (d : nat) (k2 : list R) (p2 : nat) (M : list (list R)) (ts : list R),
+         0 < tol ->
+         wf_obj_R tol o ->
+         (d < length (o_bases o))%nat ->
+         let bd := nth d (o_bases o) dflt_basis in
+         let b2 := {| b_order := p2; b_knots := k2; b_per1 := b_per1 bd |} in
+         (1 <= b_per1 bd)%nat ->
+         sorted (kn k2) ->
+         (1 <= p2)%nat ->
+         (2 * p2 <= length k2)%nat ->
+         (0 < b_nfun b2)%nat ->
+         b_start b2 = b_start bd ->
+         b_end b2 = b_end bd ->
+         (forall (side : bool) (t : R),
+          after_start side (b_start bd) t ->
+          before_end side t (b_end bd) ->
+          row_rel (ref_row side (b_knots bd) (b_order bd) (b_per1 bd) 0 t) (ref_row side k2 p2 (b_per1 bd) 0 t) M) ->
+         (forall i : nat, (i < length (o_bases o))%nat -> in_dom tol (nth i (o_bases o) dflt_basis) (nth i ts 0)) ->
+         snap1 k2 tol (nth d ts 0) = snap1 (b_knots bd) tol (nth d ts 0) ->
+         wf_obj_R tol (Split.obj_along o d b2 M) /\ obj_eval tol (Split.obj_along o d b2 M) ts = obj_eval tol o ts.
+Proof. exact @periodic_change_dir_eval. Qed.
+Print Assumptions C04_periodic_change_of_basis_then_evaluate.
 
